@@ -1,5 +1,6 @@
 import MindsVerif.Lemmas.RouteWalk
-/-! `get_query_info` / `check_single_integration`: both directions of the decision. -/
+/-! `get_query_info` / `check_single_integration`: both directions of the decision, for the code as it is
+(`skip = false`) and with bare CTE names skipped (`skip = true`, fixes/C11_1.diff). -/
 namespace MindsVerif.Route
 
 theorem mem_insertSet_self (x : Name) (s : List Name) : x ∈ insertSet x s := by
@@ -8,14 +9,25 @@ theorem mem_insertSet_self (x : Name) (s : List Name) : x ∈ insertSet x s := b
 theorem mem_insertSet_of_mem (x y : Name) (s : List Name) (h : y ∈ s) : y ∈ insertSet x s := by
   unfold insertSet; split <;> simp [*]
 
+/-- the item is looked at by `find_objects` (not a skipped CTE reference) -/
+def counted (skip : Bool) (ctes : List Name) : Item → Bool
+  | .table parts => !(skip && isCteRef ctes parts)
+  | _ => true
+
+/-- the item is a table that `resolve_database_table` sends to `i`, or a skipped CTE reference -/
+def itemFine (skip : Bool) (c : Catalog) (ctes : List Name) (i : Name) (it : Item) : Prop :=
+  ∃ parts, it = .table parts ∧
+    ((skip = true ∧ isCteRef ctes parts = true) ∨ ∃ rest, resolveSimple c parts = some (i, rest))
+
 /-- every visited item is a table that `resolve_database_table` sends to `i` -/
 def allResolveTo (c : Catalog) (i : Name) (items : List Item) : Prop :=
   ∀ it ∈ items, ∃ parts rest, it = .table parts ∧ resolveSimple c parts = some (i, rest)
 
-theorem queryInfoFrom_single (c : Catalog) (ctes : List Name) (i : Name) (hi : i ∉ c.projects) :
-    ∀ (items : List Item) (qi : QueryInfo), allResolveTo c i items →
+theorem queryInfoFrom_single (skip : Bool) (c : Catalog) (ctes : List Name) (i : Name) (hi : i ∉ c.projects) :
+    ∀ (items : List Item) (qi : QueryInfo), (∀ it ∈ items, itemFine skip c ctes i it) →
       qi.mdbEntities = 0 → qi.userFunctions = 0 → (qi.integrations = [] ∨ qi.integrations = [i]) →
-      ∃ p', queryInfoFrom c ctes qi items = some ⟨0, if items = [] then qi.integrations else [i], p', 0⟩ := by
+      ∃ p', queryInfoFrom skip c ctes qi items =
+        some ⟨0, if items.any (counted skip ctes) = true then [i] else qi.integrations, p', 0⟩ := by
   intro items
   induction items with
   | nil =>
@@ -24,63 +36,90 @@ theorem queryInfoFrom_single (c : Catalog) (ctes : List Name) (i : Name) (hi : i
     cases qi; simp_all [queryInfoFrom]
   | cons it r ih =>
     intro qi hall h1 h2 h3
-    obtain ⟨parts, rest, rfl, hres⟩ := hall it (by simp)
-    have hr : allResolveTo c i r := fun x hx => hall x (by simp [hx])
-    have hins : insertSet i qi.integrations = [i] := by
-      rcases h3 with h | h <;> simp [h, insertSet]
-    simp only [queryInfoFrom, infoStep, hres, hi, if_false]
-    by_cases hp : isPredictor c parts = true
-    · simp only [hp, if_true]
-      obtain ⟨p', hq⟩ := ih { qi with predictors := qi.predictors + 1, integrations := insertSet i qi.integrations }
-        hr h1 h2 (Or.inr hins)
+    obtain ⟨parts, rfl, hcase⟩ := hall it (by simp)
+    have hr : ∀ x ∈ r, itemFine skip c ctes i x := fun x hx => hall x (by simp [hx])
+    by_cases hsk : (skip && isCteRef ctes parts) = true
+    · obtain ⟨p', hq⟩ := ih qi hr h1 h2 h3
       refine ⟨p', ?_⟩
-      rw [hq]; simp only [hins]; split <;> simp
-    · simp only [hp]
-      obtain ⟨p', hq⟩ := ih { qi with integrations := insertSet i qi.integrations } hr h1 h2 (Or.inr hins)
-      refine ⟨p', ?_⟩
-      simp only [Bool.false_eq_true, if_false]
-      rw [hq]; simp only [hins]; split <;> simp
+      simp only [queryInfoFrom, infoStep, hsk, if_true, hq, List.any_cons, counted, Bool.not_true, Bool.false_or]
+    · have hsk' : (skip && isCteRef ctes parts) = false := by simpa using hsk
+      obtain ⟨rest, hres⟩ : ∃ rest, resolveSimple c parts = some (i, rest) := by
+        rcases hcase with ⟨h1', h2'⟩ | h
+        · simp [h1', h2'] at hsk'
+        · exact h
+      have hins : insertSet i qi.integrations = [i] := by
+        rcases h3 with h | h <;> simp [h, insertSet]
+      simp only [queryInfoFrom, infoStep, hsk', Bool.false_eq_true, if_false, hres, hi, List.any_cons, counted,
+        Bool.not_false, Bool.true_or, if_true]
+      by_cases hp : isPredictor c parts = true
+      · simp only [hp, if_true]
+        obtain ⟨p', hq⟩ := ih { qi with predictors := qi.predictors + 1, integrations := insertSet i qi.integrations }
+          hr h1 h2 (Or.inr hins)
+        refine ⟨p', ?_⟩
+        rw [hq]; simp only [hins]; split <;> simp
+      · simp only [hp, Bool.false_eq_true, if_false]
+        obtain ⟨p', hq⟩ := ih { qi with integrations := insertSet i qi.integrations } hr h1 h2 (Or.inr hins)
+        refine ⟨p', ?_⟩
+        rw [hq]; simp only [hins]; split <;> simp
 
 /-- T11.3, decision part: a query whose visited items are all tables of one data integration `i`
-(SQL-capable, not files/views) is sent to `i` -/
+(SQL-capable, not files/views) — or, with the repaired `get_query_info`, bare CTE names — is sent to `i` -/
+theorem checkSingle_of_fine (skip : Bool) (c : Catalog) (ctes : List Name) (i : Name) (items : List Item)
+    (hne : items.any (counted skip ctes) = true) (hall : ∀ it ∈ items, itemFine skip c ctes i it)
+    (hi : i ∉ c.projects) (hf : i ≠ n!"files") (hv : i ≠ n!"views") (hapi : c.classType i ≠ some n!"api") :
+    checkSingle skip c ctes items = some i := by
+  obtain ⟨p', hq⟩ := queryInfoFrom_single skip c ctes i hi items ⟨0, [], 0, 0⟩ hall rfl rfl (Or.inl rfl)
+  simp only [checkSingle, queryInfo, hq, hne, if_true]
+  simp [hf, hv, hapi]
+
 theorem checkSingle_of_single (c : Catalog) (ctes : List Name) (i : Name) (items : List Item)
     (hne : items ≠ []) (hall : allResolveTo c i items) (hi : i ∉ c.projects)
     (hf : i ≠ n!"files") (hv : i ≠ n!"views") (hapi : c.classType i ≠ some n!"api") :
-    checkSingle c ctes items = some i := by
-  obtain ⟨p', hq⟩ := queryInfoFrom_single c ctes i hi items ⟨0, [], 0, 0⟩ hall rfl rfl (Or.inl rfl)
-  simp only [checkSingle, queryInfo, hq, hne, if_false]
-  simp [hf, hv, hapi]
+    checkSingle false c ctes items = some i := by
+  apply checkSingle_of_fine false c ctes i items ?_ ?_ hi hf hv hapi
+  · cases items with
+    | nil => exact absurd rfl hne
+    | cons a r =>
+      obtain ⟨parts, rest, rfl, _⟩ := hall a (by simp)
+      simp [counted]
+  · intro it hit
+    obtain ⟨parts, rest, rfl, hr⟩ := hall it hit
+    exact ⟨parts, rfl, Or.inr ⟨rest, hr⟩⟩
 
 /-! converse -/
 
-def itemOk (c : Catalog) (ctes : List Name) (qi : QueryInfo) : Item → Prop
+def itemOk (skip : Bool) (c : Catalog) (ctes : List Name) (qi : QueryInfo) : Item → Prop
   | .udf => qi.userFunctions > 0
   | .native => qi.mdbEntities > 0
-  | .table parts => ∃ integ rest, resolveSimple c parts = some (integ, rest) ∧
-      ((integ ∈ c.projects ∧ (joinDots parts ∈ ctes ∨ qi.mdbEntities > 0)) ∨
+  | .table parts => (skip = true ∧ isCteRef ctes parts = true) ∨
+      ∃ integ rest, resolveSimple c parts = some (integ, rest) ∧
+      ((integ ∈ c.projects ∧ ((skip = false ∧ joinDots parts ∈ ctes) ∨ qi.mdbEntities > 0)) ∨
        (integ ∉ c.projects ∧ integ ∈ qi.integrations))
 
 def infoLe (a b : QueryInfo) : Prop :=
   a.mdbEntities ≤ b.mdbEntities ∧ a.userFunctions ≤ b.userFunctions ∧ ∀ x ∈ a.integrations, x ∈ b.integrations
 
+theorem infoLe_refl (a : QueryInfo) : infoLe a a := ⟨Nat.le_refl _, Nat.le_refl _, fun _ hx => hx⟩
+
 theorem infoLe_trans {a b c : QueryInfo} (h1 : infoLe a b) (h2 : infoLe b c) : infoLe a c :=
   ⟨Nat.le_trans h1.1 h2.1, Nat.le_trans h1.2.1 h2.2.1, fun x hx => h2.2.2 x (h1.2.2 x hx)⟩
 
-theorem itemOk_mono (c : Catalog) (ctes : List Name) {a b : QueryInfo} (h : infoLe a b) (it : Item)
-    (hok : itemOk c ctes a it) : itemOk c ctes b it := by
+theorem itemOk_mono (skip : Bool) (c : Catalog) (ctes : List Name) {a b : QueryInfo} (h : infoLe a b) (it : Item)
+    (hok : itemOk skip c ctes a it) : itemOk skip c ctes b it := by
   cases it with
   | udf => exact Nat.lt_of_lt_of_le hok h.2.1
   | native => exact Nat.lt_of_lt_of_le hok h.1
   | table parts =>
-    obtain ⟨integ, rest, hr, hcase⟩ := hok
-    refine ⟨integ, rest, hr, ?_⟩
-    rcases hcase with ⟨hp, hc | hm⟩ | ⟨hp, hm⟩
-    · exact Or.inl ⟨hp, Or.inl hc⟩
-    · exact Or.inl ⟨hp, Or.inr (Nat.lt_of_lt_of_le hm h.1)⟩
-    · exact Or.inr ⟨hp, h.2.2 _ hm⟩
+    rcases hok with hs | ⟨integ, rest, hr, hcase⟩
+    · exact Or.inl hs
+    · refine Or.inr ⟨integ, rest, hr, ?_⟩
+      rcases hcase with ⟨hp, hc | hm⟩ | ⟨hp, hm⟩
+      · exact Or.inl ⟨hp, Or.inl hc⟩
+      · exact Or.inl ⟨hp, Or.inr (Nat.lt_of_lt_of_le hm h.1)⟩
+      · exact Or.inr ⟨hp, h.2.2 _ hm⟩
 
-theorem infoStep_spec (c : Catalog) (ctes : List Name) (qi qi1 : QueryInfo) (it : Item)
-    (h : infoStep c ctes qi it = some qi1) : infoLe qi qi1 ∧ itemOk c ctes qi1 it := by
+theorem infoStep_spec (skip : Bool) (c : Catalog) (ctes : List Name) (qi qi1 : QueryInfo) (it : Item)
+    (h : infoStep skip c ctes qi it = some qi1) : infoLe qi qi1 ∧ itemOk skip c ctes qi1 it := by
   cases it with
   | udf =>
     simp only [infoStep, Option.some.injEq] at h; subst h
@@ -90,59 +129,66 @@ theorem infoStep_spec (c : Catalog) (ctes : List Name) (qi qi1 : QueryInfo) (it 
     exact ⟨⟨Nat.le_succ _, Nat.le_refl _, fun _ hx => hx⟩, Nat.succ_pos _⟩
   | table parts =>
     simp only [infoStep] at h
-    cases hr : resolveSimple c parts with
-    | none => simp [hr] at h
-    | some x =>
-      obtain ⟨integ, rest⟩ := x
-      simp only [hr] at h
-      by_cases hp : integ ∈ c.projects
-      · simp only [hp, if_true, Option.some.injEq] at h
-        by_cases hc : joinDots parts ∈ ctes
-        · simp only [hc, if_true] at h; subst h
-          refine ⟨?_, integ, rest, hr, Or.inl ⟨hp, Or.inl hc⟩⟩
-          split <;> exact ⟨Nat.le_refl _, Nat.le_refl _, fun _ hx => hx⟩
-        · simp only [hc, if_false] at h; subst h
-          refine ⟨?_, integ, rest, hr, Or.inl ⟨hp, Or.inr (Nat.succ_pos _)⟩⟩
-          split <;> exact ⟨Nat.le_succ _, Nat.le_refl _, fun _ hx => hx⟩
-      · simp only [hp, if_false, Option.some.injEq] at h; subst h
-        refine ⟨?_, integ, rest, hr, Or.inr ⟨hp, mem_insertSet_self _ _⟩⟩
-        split <;> exact ⟨Nat.le_refl _, Nat.le_refl _, fun _ hx => mem_insertSet_of_mem _ _ _ hx⟩
+    by_cases hsk : (skip && isCteRef ctes parts) = true
+    · simp only [hsk, if_true, Option.some.injEq] at h; subst h
+      simp only [Bool.and_eq_true] at hsk
+      exact ⟨infoLe_refl _, Or.inl hsk⟩
+    · simp only [hsk, Bool.false_eq_true, if_false] at h
+      cases hr : resolveSimple c parts with
+      | none => simp [hr] at h
+      | some x =>
+        obtain ⟨integ, rest⟩ := x
+        simp only [hr] at h
+        by_cases hp : integ ∈ c.projects
+        · simp only [hp, if_true, Option.some.injEq] at h
+          by_cases hc : (!skip && decide (joinDots parts ∈ ctes)) = true
+          · simp only [hc, if_true] at h; subst h
+            simp only [Bool.and_eq_true, Bool.not_eq_true', decide_eq_true_eq] at hc
+            refine ⟨?_, Or.inr ⟨integ, rest, hr, Or.inl ⟨hp, Or.inl hc⟩⟩⟩
+            split <;> exact infoLe_refl _
+          · simp only [hc, Bool.false_eq_true, if_false] at h; subst h
+            refine ⟨?_, Or.inr ⟨integ, rest, hr, Or.inl ⟨hp, Or.inr (Nat.succ_pos _)⟩⟩⟩
+            split <;> exact ⟨Nat.le_succ _, Nat.le_refl _, fun _ hx => hx⟩
+        · simp only [hp, if_false, Option.some.injEq] at h; subst h
+          refine ⟨?_, Or.inr ⟨integ, rest, hr, Or.inr ⟨hp, mem_insertSet_self _ _⟩⟩⟩
+          split <;> exact ⟨Nat.le_refl _, Nat.le_refl _, fun _ hx => mem_insertSet_of_mem _ _ _ hx⟩
 
-theorem queryInfoFrom_spec (c : Catalog) (ctes : List Name) :
-    ∀ (items : List Item) (qi qi' : QueryInfo), queryInfoFrom c ctes qi items = some qi' →
-      infoLe qi qi' ∧ ∀ it ∈ items, itemOk c ctes qi' it := by
+theorem queryInfoFrom_spec (skip : Bool) (c : Catalog) (ctes : List Name) :
+    ∀ (items : List Item) (qi qi' : QueryInfo), queryInfoFrom skip c ctes qi items = some qi' →
+      infoLe qi qi' ∧ ∀ it ∈ items, itemOk skip c ctes qi' it := by
   intro items
   induction items with
   | nil =>
     intro qi qi' h
     simp only [queryInfoFrom, Option.some.injEq] at h; subst h
-    exact ⟨⟨Nat.le_refl _, Nat.le_refl _, fun _ hx => hx⟩, by simp⟩
+    exact ⟨infoLe_refl _, by simp⟩
   | cons it r ih =>
     intro qi qi' h
     simp only [queryInfoFrom] at h
-    cases hs : infoStep c ctes qi it with
+    cases hs : infoStep skip c ctes qi it with
     | none => simp [hs] at h
     | some qi1 =>
       simp only [hs] at h
-      obtain ⟨hle1, hok1⟩ := infoStep_spec c ctes qi qi1 it hs
+      obtain ⟨hle1, hok1⟩ := infoStep_spec skip c ctes qi qi1 it hs
       obtain ⟨hle2, hok2⟩ := ih qi1 qi' h
       refine ⟨infoLe_trans hle1 hle2, ?_⟩
       intro x hx
       simp only [List.mem_cons] at hx
       rcases hx with rfl | hx
-      · exact itemOk_mono c ctes hle2 _ hok1
+      · exact itemOk_mono skip c ctes hle2 _ hok1
       · exact hok2 x hx
 
 /-- what a positive pushdown decision guarantees about every *visited* item -/
-def pushedOk (c : Catalog) (ctes : List Name) (i : Name) (it : Item) : Prop :=
-  ∃ parts integ rest, it = .table parts ∧ resolveSimple c parts = some (integ, rest) ∧
-    ((integ = i ∧ i ∉ c.projects) ∨ (integ ∈ c.projects ∧ joinDots parts ∈ ctes))
+def pushedOk (skip : Bool) (c : Catalog) (ctes : List Name) (i : Name) (it : Item) : Prop :=
+  ∃ parts, it = .table parts ∧ ((skip = true ∧ isCteRef ctes parts = true) ∨
+    ∃ integ rest, resolveSimple c parts = some (integ, rest) ∧
+      ((integ = i ∧ i ∉ c.projects) ∨ (integ ∈ c.projects ∧ skip = false ∧ joinDots parts ∈ ctes)))
 
-theorem checkSingle_sound (c : Catalog) (ctes : List Name) (items : List Item) (i : Name)
-    (h : checkSingle c ctes items = some i) :
-    (∀ it ∈ items, pushedOk c ctes i it) ∧ i ≠ n!"files" ∧ i ≠ n!"views" ∧ c.classType i ≠ some n!"api" := by
+theorem checkSingle_sound (skip : Bool) (c : Catalog) (ctes : List Name) (items : List Item) (i : Name)
+    (h : checkSingle skip c ctes items = some i) :
+    (∀ it ∈ items, pushedOk skip c ctes i it) ∧ i ≠ n!"files" ∧ i ≠ n!"views" ∧ c.classType i ≠ some n!"api" := by
   unfold checkSingle at h
-  cases hq : queryInfo c ctes items with
+  cases hq : queryInfo skip c ctes items with
   | none => simp [hq] at h
   | some qi =>
     obtain ⟨m, ints, p, u⟩ := qi
@@ -155,21 +201,23 @@ theorem checkSingle_sound (c : Catalog) (ctes : List Name) (items : List Item) (
       · rename_i hcond
         simp only [Option.some.injEq] at h; subst h
         refine ⟨?_, hcond.1, hcond.2.1, hcond.2.2⟩
-        obtain ⟨_, hall⟩ := queryInfoFrom_spec c ctes items _ _ hq
+        obtain ⟨_, hall⟩ := queryInfoFrom_spec skip c ctes items _ _ hq
         intro it hit
         have := hall it hit
         cases it with
         | udf => exact absurd this (by simp [itemOk])
         | native => exact absurd this (by simp [itemOk])
         | table parts =>
-          obtain ⟨integ, rest, hr, hcase⟩ := this
-          refine ⟨parts, integ, rest, rfl, hr, ?_⟩
-          rcases hcase with ⟨hp, hc | hm⟩ | ⟨hp, hm⟩
-          · exact Or.inr ⟨hp, hc⟩
-          · simp at hm
-          · simp only [List.mem_singleton] at hm
-            subst hm
-            exact Or.inl ⟨rfl, hp⟩
+          refine ⟨parts, rfl, ?_⟩
+          rcases this with hs | ⟨integ, rest, hr, hcase⟩
+          · exact Or.inl hs
+          · refine Or.inr ⟨integ, rest, hr, ?_⟩
+            rcases hcase with ⟨hp, hc | hm⟩ | ⟨hp, hm⟩
+            · exact Or.inr ⟨hp, hc.1, hc.2⟩
+            · simp at hm
+            · simp only [List.mem_singleton] at hm
+              subst hm
+              exact Or.inl ⟨rfl, hp⟩
       · simp at h
     · simp at h
 
